@@ -15,14 +15,19 @@ def cls(s, neg=False): return {"t": "class", "set": sorted(set(s)), "neg": neg}
 ANY = {"t": "any"}
 
 
+EXTREME = [0x00, 0xff, 0xff, 0xfe, 0x01, 0x7f, 0x80]
+
+
 def sample(r, nd, filler, stress=None):
     """a byte string the node matches (best effort: anchors/boundaries ignored)"""
     t = nd["t"]
     if t == "lit": return bytes([nd["b"]])
-    if t == "any": return bytes([r.choice(filler)])
+    # bytes under a wildcard: the extreme values of the byte range as often as ordinary filler (the engine enumerates the values
+    # a wildcard inside an atom can take: _yr_atoms_expand_wildcards)
+    if t == "any": return bytes([r.choice(filler) if r.random() < 0.6 else r.choice(EXTREME)])
     if t == "mask":
         for _ in range(50):
-            x = r.choice(filler + [nd["v"], nd["v"] | (~nd["m"] & 0xff & r.randrange(256))])
+            x = r.choice(filler + [nd["v"], nd["v"] | (~nd["m"] & 0xff & r.randrange(256)), nd["v"] | (~nd["m"] & 0xff), nd["v"] | (~nd["m"] & 0xfe)] + EXTREME)
             if ((x & nd["m"]) == nd["v"]) != nd["neg"]:
                 return bytes([x])
         return bytes([nd["v"] ^ (0xff if nd["neg"] else 0)])
